@@ -6,7 +6,7 @@ set -u
 REPO=${REPO:-/repo}
 OUT=${1:-/tmp/verif-baseline.$$}
 export GOFLAGS=-mod=mod GOPROXY=off GOSUMDB=off GOTOOLCHAIN=local
-(cd "$REPO" && go test -mod=mod -json -vet=off -count=1 -timeout 25m ./... > "$OUT.json" 2> "$OUT.err")
+(cd "$REPO" && go test -mod=mod -json -vet=off -count=1 -timeout ${BASELINE_TIMEOUT:-25m} ./... > "$OUT.json" 2> "$OUT.err")
 python3 - "$OUT.json" <<'EOF'
 import json, sys
 base = json.load(open("/root/.vp/BASELINE.json"))
